@@ -176,6 +176,39 @@ def reject_strategy(tier):
     return gen.pick((1, aesk), (1, desk), (1, tdk), (1, tda), (1, serk), (1, serb), (1, tfk), (1, tft), (8, blocks))
 
 
+def reject_cases(tier, rnd):
+    """EVERY undefined key / tweak / block length in the ranges the sampled facet draws from"""
+    def rb(n):
+        return bytes(rnd.randrange(1, 256) for _ in range(n))
+    for n in range(0, 41):
+        if n not in (16, 24, 32):
+            yield {"what": "key", "cipher": "aes", "key": rb(n)}
+        if n not in (8,) and n <= 20:
+            yield {"what": "key", "cipher": "des", "key": rb(n)}
+            yield {"what": "key", "cipher": "tdea-args", "keys": (rb(8), rb(n))}
+            yield {"what": "key", "cipher": "tdea-args", "keys": (rb(8), rb(8), rb(n))}
+        if n not in (8, 16, 24) and n >= 1:
+            yield {"what": "key", "cipher": "tdea-string", "key": rb(n)}
+        if n != 16:
+            yield {"what": "key", "cipher": "threefish-tweak", "tweak": rb(n)}
+    for n in range(33, 71):
+        yield {"what": "key", "cipher": "serpent", "key": rb(n)}
+    for n in list(range(257, 300)) + [320, 384, 512, 600]:
+        yield {"what": "key", "cipher": "serpent-bits", "kbits": n}
+    for n in range(1, 141):
+        if n not in (32, 64, 128):
+            yield {"what": "key", "cipher": "threefish", "key": rb(n)}
+    for name in CI.CIPHERS:
+        B = CI.BLOCK[name]
+        conf = {"cipher": name, "key": rb(CI.keylen(name, "bytes") if name != "tdea" else 24), "form": "bytes"}
+        if name.startswith("tf"):
+            conf["tweak"] = rb(16)
+        for n in sorted(set(range(0, 2 * B + 4)) | {32, 64, 128, 256}):
+            if n != B:
+                for d in ("enc", "dec"):
+                    yield {"what": "block", "conf": conf, "block": rb(n), "dir": d}
+
+
 def classify_reject(c):
     return (c["what"], c["cipher"] if c["what"] == "key" else c["conf"]["cipher"])
 
@@ -241,6 +274,10 @@ FACETS = [
           rule="2..6 enc/dec calls with different blocks on ONE object, each compared with the reference (cached key schedules, stale state); "
                "one call in six passes a block of the wrong size (refused) before the following calls are judged; in half of the cases a sibling object "
                "with another key is used in between; the last call is made by a later object built on the caller's same Bits key vectors (unchanged)"),
+    Facet("undefined-sizes-all", check_reject, cases=reject_cases, exhaustive=False, distinct=True, nontrivial=lambda c: True, classify=classify_reject,
+          shards={"quick": 8, "thorough": 8},
+          rule="EVERY undefined length: AES keys 0..40 B, DES keys and TDEA arguments 0..20 B, TDEA strings 1..40 B, Serpent keys 33..70 B / 257..600 bits, "
+               "Threefish keys 1..140 B and tweaks 0..40 B, blocks of every length 0..2B+3 (and 32/64/128/256 B) for all nine configurations, both directions"),
     Facet("undefined-sizes", check_reject, strategy=reject_strategy, budget={"quick": 1200, "thorough": 20000},
           nontrivial=lambda c: True, classify=classify_reject,
           rule="AES key not in {16,24,32}, DES key != 8, TDEA strings/arguments of other lengths, Serpent key > 256 bits, Threefish key/tweak "
